@@ -84,6 +84,7 @@ TARGETS = {
             T(B + 'support', B + 'support!proved:levels', variant='levels')],
     'C11': [T('dd.bdd._copy_bdd', variant='two-managers'), T('dd.bdd.copy_bdd', variant='two-managers'),
             T('dd.bdd.copy_bdd', variant='same-manager', alias={'from_bdd': 'to_bdd'}), T(B + 'copy', variant='two-managers')],
+    'C12': [T(B + '_load')],
     'C14': [T(B + 'add_var'), T(B + '_check_var'), T(B + '_next_free_level'), T(B + '_init_terminal'), T(B + 'declare'),
             T(B + 'var_at_level'), T(B + 'level_of_var'), T(B + 'var_levels'), T(B + 'var', B + 'var!body')],
     'C17': [T(B + 'find_or_add'), T(B + 'add_var'), T(B + '_check_var'), T(B + '_next_free_level'), T(B + 'var_at_level'),
